@@ -1219,7 +1219,7 @@ TABLE = [
     (r"Debug__fmt|::fmt$|Debug", ["debug"], ["default"], ()),
     (r"^crate::traits::", ["traits", "reset", "xof"], ["default"], ()),
     (r"^crate::io::|Hasher::update_reader", ["reader", "rayon_mmap", "incremental"], ["default"], ()),
-    (r"^crate::join::|Hasher::update_rayon|Hasher::update_mmap", ["rayon_mmap", "incremental"], ["default"], ()),
+    (r"^crate::join::|Hasher::update_rayon|Hasher::update_mmap", ["rayon_mmap", "incremental"], SIMD_ALL, ()),
     (r"^crate::hazmat::(left_subtree_len|max_subtree_len)", ["hazmat_fn", "hazmat_tree", "oneshot"], GENERAL, ()),
     (r"^crate::hazmat::", ["hazmat_ops", "hazmat_tree", "hazmat_fn", "reset"], GENERAL, ()),
     (r"^crate::OutputReader::|Hasher::finalize_xof|^crate::Output::root_output_block", ["xof", "incremental"],
@@ -1234,7 +1234,7 @@ TABLE = [
     (r"^crate::parent_node_output", ["guts", "incremental", "hazmat_tree", "oneshot"], GENERAL, ()),
     (r"^crate::(compress_subtree_wide|compress_chunks_parallel|compress_parents_parallel|"
      r"compress_subtree_to_parent_node|hash_all_at_once|largest_power_of_two_leq|hash|keyed_hash|derive_key)\b",
-     ["oneshot", "incremental", "hazmat_tree"], SIMD_ALL, ()),
+     ["oneshot", "incremental", "rayon_mmap", "hazmat_tree"], SIMD_ALL, ()),
 ]
 SMOKE = (["oneshot", "incremental"], GENERAL, ())
 
